@@ -244,6 +244,24 @@ def check(case, ctx):
             if [r for r in logs2 if r.levelno >= logging.WARNING]:
                 return ctx.fail("warnings", "a file of recognised lines only produced warnings: %r" % [r.getMessage() for r in logs2][:3])
 
+        # ---- history: the loaded objects are independent of later loads - modify every loaded matrix / measurement in
+        #      place (what a user re-weighting a loaded graph does), load the same file again, compare with the file
+        for e in g._edges:
+            np.asarray(e.information)[...] = np.asarray(e.information) * 0.01 - 1.0
+            if isinstance(e.estimate, np.ndarray):
+                np.asarray(e.estimate)[...] = np.asarray(e.estimate) * 0.5 + 2.0
+        for v in g._vertices:
+            np.asarray(v.pose)[...] = np.asarray(v.pose) * 0.5 + 2.0
+        gr, _ = load_with_log(gs.Graph.from_g2o, path, custom_edge_types=list(GT.CUSTOM_TYPES))
+        if graph_bits(gr) != base_bits:
+            return ctx.fail("reload-differs-after-in-place-edit", "modifying the first loaded graph in place changed what a second load of the same file returns")
+        seen = {}
+        for i, e in enumerate(gr._edges):
+            key = id(e.information)
+            if key in seen:
+                return ctx.fail("loaded-objects-shared", "edges #%d and #%d share one information array" % (seen[key], i))
+            seen[key] = i
+
         # ---- all loader entry points behave identically (the wrappers take no custom edge types)
         g0, logs0 = load_with_log(gs.Graph.from_g2o, path)
         b0 = graph_bits(g0)
